@@ -8,6 +8,7 @@ from .. import paths
 from ..core import FUNC, AnalysisError, inert, call_attr, calls_in, const, dotted, is_const, kwarg, norm, slice_parts, text, walk_local
 
 EXPLANATION = [
+    'C20.listener-cleanup: every `on/once(event, future.set_result|set_exception)` made by a coroutine of hfp / rfcomm is undone by a remove_listener in a finally of that coroutine, so an abandoned wait leaves no listener that would raise at the next emit (second final result code).',
     "C20.mux-teardown: every method of rfcomm.Multiplexer that takes it to DISCONNECTED completes a pending disconnect() on each path that performs the transition (the UA answering our DISC and the peer's crossing DISC alike).",
     'C20.enum-agreement: the set / dict attributes of AgProtocol and HfProtocol are tested and emptied (discard, remove, in) with members of the enum types they are filled with: a member of another enum spelled alike is a different key.',
     'C20.fifo: every deque of the anchored modules that is filled with append / extend is emptied with popleft or by iteration (never pop()), and conversely: queued entries come out in the order they went in.',
@@ -1276,7 +1277,30 @@ def mux_teardown(ctx):
     R.check(n >= 2, rule, 'bumble.rfcomm.Multiplexer | closing transitions', f'{n} methods reach DISCONNECTED', f'only {n} found')
 
 
+def listener_cleanup(ctx):
+    """A coroutine that registers `future.set_result` / `set_exception` as an event listener and then awaits the future
+    removes the listener in a `finally` (or registers through an EventWatcher it closes): when the caller gives up, the
+    listener would otherwise stay and raise InvalidStateError on the cancelled future at the next emit -- in the AG, after
+    the handler has already sent OK, so the command gets a second final result code."""
+    R, p = ctx.r, ctx.p
+    rule = 'C20.listener-cleanup'
+    n = 0
+    for mn in ('bumble.hfp', 'bumble.rfcomm'):
+        m = p.modules.get(mn)
+        if m is None:
+            R.bad(rule, mn, 'anchor missing')
+            continue
+        for fn in [x for x in ast.walk(m.tree) if isinstance(x, ast.AsyncFunctionDef)]:
+            for c in [x for x in walk_local(fn) if isinstance(x, ast.Call) and call_attr(x) in ('on', 'once') and len(x.args) == 2 and isinstance(x.args[1], ast.Attribute) and x.args[1].attr in ('set_result', 'set_exception')]:
+                n += 1
+                fut = dotted(c.args[1].value)
+                removed = [r for t in walk_local(fn) if isinstance(t, ast.Try) for s_ in t.finalbody for r in calls_in(s_) if call_attr(r) == 'remove_listener' and len(r.args) == 2 and norm(r.args[1]) == norm(c.args[1]) and norm(r.args[0]) == norm(c.args[0])]
+                R.check(bool(removed), rule, f'{p.qual_of(fn)} | {norm(c)[:60]}', 'removed again in a finally', f'`{norm(c)[:70]}` is never removed when the await on `{fut}` is abandoned: the stale listener raises on the cancelled future at the next emit, and the AT reader turns that into an ERROR after the OK already sent', f'{m.rel}:{c.lineno}')
+    R.check(n >= 1, rule, 'bumble.hfp, bumble.rfcomm | future listeners', f'{n} registrations of a future\'s setter as listener', 'no registration found (anchor moved)')
+
+
 RULES = [
+    ('C20.listener-cleanup', listener_cleanup),
     ('C20.mux-teardown', mux_teardown),
     ('C20.enum-agreement', enum_agreement_rule),
     ('C20.fifo', fifo_rule),
